@@ -90,6 +90,7 @@ macro_rules! range_row {
                 }
             };
             let mut held_prev = 0usize;
+            let mut cleared = false;
             let mut run_left = 0usize;
             let mut run_tab: Option<Tab> = None;
 
@@ -210,6 +211,33 @@ macro_rules! range_row {
                     if bound - bits < wbits as f64 {
                         ctx.label("within_one_word_of_bound");
                     }
+                }
+                if (mode == 2 || mode == 18) && !adversarial && !cleared && n == check_prefix_at && kfrac % 4 == 3 {
+                    // clear(): "discards all compressed data and resets the coder to the same state as new()";
+                    // what follows is a fresh message on an empty coder
+                    let was_inverted = matches!(situation(&enc), EncoderSituation::Inverted(..));
+                    enc.clear();
+                    cleared = true;
+                    ctx.label(if was_inverted { "cleared_while_words_were_held_back" } else { "cleared" });
+                    note!(ctx, "clear()");
+                    msg.clear();
+                    refc = RefRange::new(sbits as u32, wbits as u32);
+                    held_prev = 0;
+                    let ex = export(&enc);
+                    if mode == 2 {
+                        vcheck!(ex.is_empty(), "C02/empty_message_produced_words", "a cleared encoder (empty message) seals to {}", hexwords(&ex));
+                    } else {
+                        vcheck!(
+                            enc.is_empty() == ex.is_empty() && enc.num_words() == ex.len() && enc.num_bits() == wbits * ex.len(),
+                            "C18/range_sizes_after_clear",
+                            "after clear(): is_empty()={} num_words()={} num_bits()={} but the export is {}",
+                            enc.is_empty(),
+                            enc.num_words(),
+                            enc.num_bits(),
+                            hexwords(&ex)
+                        );
+                    }
+                    continue;
                 }
                 if mode == 18 {
                     let ex = export(&enc);
